@@ -1,14 +1,14 @@
 SPECIFICATION Spec
 CONSTANTS
-  PD = 4
+  PD = 16777216
   NP = 2
   Kind <- Kind2
-  MaxKf = 2
-  NE = 2
+  MaxKf = 4
+  NE = 1
   EasePool <- EasesA
   TimingPool <- TimingsA
   Seed = 1
-  PosPool <- AllPos
-  NRand = 0
+  PosPool <- NearPos
+  NRand = 300
 INVARIANT Emit
 CHECK_DEADLOCK FALSE
